@@ -38,6 +38,7 @@ fn main() {
     "realloop" => engines::realloop::main(&rest),
     "realloop-replay" => engines::realloop::replay_main(&rest),
     "realloop-child" => engines::realloop::child_main(&rest),
+    "cli-load" => engines::cli::load_main(&rest),
     other => {
       eprintln!("unknown engine {}", other);
       2
